@@ -2048,27 +2048,40 @@ class Executor:
         return Coll(kind, ez.sort(), mem, nodup=(kind != "list") or (nodup_src and ident is not None and ez.eq(ident)))
 
     def ex_DictComp(self, node, st):
-        if len(node.generators) != 1 or node.generators[0].ifs:
+        if len(node.generators) != 1:
             raise Unsupported("dict comprehension form")
         g = node.generators[0]
         it = self.as_coll(self.ev(g.iter, st), st)
         if it.mem is None:
             return DictV(None, "scalar", None, None)
+        src = getattr(it, "items_of", None)
+        if g.ifs and src is None:
+            raise Unsupported("filtered dict comprehension over something else than dict.items()")
         x = fresh("k", it.esort)
         saved = dict(st.env)
         mark = len(st.pc)
         try:
             self.assign(g.target, val_of(x), st)
             st.pc.append(it.mem[x])
+            conds = [self.truth_z(st, self.ev(c, st)) for c in g.ifs]
             k = self.ev(node.key, st)
             v = self.ev(node.value, st)
         finally:
             del st.pc[mark:]
             st.env.clear()
             st.env.update(saved)
+        vz = z3_of(v)
+        if src is not None:
+            # {f(k, v) ...  for k, v in d.items() if c(k, v)} with the key kept: a sub-dictionary of d with mapped values
+            if not z3.simplify(z3_of(k) == it.esort.accessor(0, 0)(x)).eq(z3.BoolVal(True)) and not z3_of(k).eq(it.esort.accessor(0, 0)(x)):
+                raise Unsupported("dict comprehension over items() whose key is not the item's key")
+            k2 = fresh("k", src.ksort)
+            pair = it.esort.constructor(0)(k2, src.val[k2])
+            keep = z3.substitute(z3.And(*conds) if conds else z3.BoolVal(True), (x, pair))
+            val = z3.substitute(vz, (x, pair))
+            return DictV(src.ksort, "scalar", z3.Lambda([k2], z3.And(src.dom[k2], keep)), z3.Lambda([k2], val), vsort=vz.sort())
         if not z3_of(k).eq(x):
             raise Unsupported("dict comprehension whose key is not the loop variable")
-        vz = z3_of(v)
         return DictV(it.esort, "scalar", it.mem, z3.Lambda([x], vz), vsort=vz.sort())
 
     def ex_ListComp(self, node, st):
@@ -2186,6 +2199,10 @@ class Executor:
             return r
         if isinstance(recv, Scalar) and recv.z.sort() == Opaque:
             self.assumed.add(f"method .{name}() of an opaque object (CPD / progress bar / ...) has no effect on the modelled state")
+            if name in ("scope", "get_evidence") and not args:
+                # a list of variable names, a pure function of the object
+                f = z3.Function(f"opaque_{name}", Opaque, set_sort(Atom))
+                return Coll("list", Atom, f(recv.z))
             return Scalar(fresh(f"opq_{name}", Opaque))
         raise Unsupported(f"method {name} on {recv!r}")
 
@@ -2371,6 +2388,9 @@ class Executor:
                 return Scalar(z3.IntVal(len(v.items)))
             if isinstance(v, Coll):
                 n = self.length_of(v, st)
+                if n is None and v.kind in ("list", "tuple") and v.mem is not None:
+                    self.seq_of(v, st)   # the list has *some* length n >= 0, tied to its members by the sequence-view axioms
+                    n = v.len_z
                 if n is None:
                     raise Unsupported("len() of a list whose multiplicities are abstracted")
                 r = Scalar(n)
@@ -2404,6 +2424,18 @@ class Executor:
             raise Unsupported("any/all over non-bool")
         if name == "super":
             return self.lib.super_(self, args, st)
+        if name == "set.union" and len(args) == 1 and isinstance(args[0], Coll) and isinstance(args[0].esort, z3.ArraySortRef) and not kwargs:
+            # set.union(*sets) with an abstract sequence of sets: the union of all of them (TypeError when there is none)
+            c = args[0]
+            self.oblige(st, nonempty(c.mem, c.esort), "set.union-needs-an-argument")
+            es = c.esort.domain()
+            e = fresh("e", es)
+            d = getattr(c, "values_of", None)
+            if d is not None:
+                k = fresh("k", d.ksort)
+                return Coll("set", es, z3.Lambda([e], z3.Exists([k], z3.And(d.dom[k], d.val[k][e]))))
+            S = fresh("S", c.esort)
+            return Coll("set", es, z3.Lambda([e], z3.Exists([S], z3.And(c.mem[S], S[e]))))
         if name == "hash":
             return Scalar(self.lib.hash_(self, args[0], st))
         if name in ("min", "max") and len(args) == 1 and isinstance(args[0], (DictV, Coll)):
@@ -2628,6 +2660,22 @@ class Executor:
     def dict_method(self, d, name, args, kwargs, st):
         if name == "keys":
             return Coll("iter", d.ksort, d.dom, nodup=True)
+        if name == "items" and not args and d.vkind == "scalar":
+            if d.dom is None:
+                return Coll("iter", None, None, items=[])
+            ps = tuple_sort([d.ksort, d.vsort if d.vsort is not None else d.val.sort().range()])
+            p = fresh("p", ps)
+            r = Coll("iter", ps, z3.Lambda([p], z3.And(d.dom[ps.accessor(0, 0)(p)], ps.accessor(0, 1)(p) == d.val[ps.accessor(0, 0)(p)])), nodup=True)
+            r.items_of = d
+            return r
+        if name == "values" and not args and isinstance(d.vkind, tuple) and d.vkind[0] == "set":
+            if d.dom is None:
+                return Coll("iter", None, None, items=[])
+            ss = set_sort(d.vkind[1])
+            S, k = fresh("S", ss), fresh("k", d.ksort)
+            r = Coll("iter", ss, z3.Lambda([S], z3.Exists([k], z3.And(d.dom[k], S == d.val[k]))), nodup=False)
+            r.values_of = d
+            return r
         if name == "get" and d.vkind == "scalar":
             raise Unsupported("dict.get")
         raise Unsupported(f"dict method {name}")
